@@ -303,6 +303,17 @@ class Session:
                 if conn.open and conn.server is self.dev:
                     self.dev.send_partial_unsolicited(conn, op.get("k", 10))
             await asyncio.sleep(0.01)
+        elif kind == "dev_burst":
+            # the unit pushes n unsolicited status reports while nobody is reading (they pile up unread)
+            for conn in w.net.conns:
+                if conn.open and conn.server is self.dev:
+                    key = conn.state["keys"][-1] if conn.state.get("keys") else None
+                    if self.dev.version == 3 and key is None:
+                        continue
+                    for _ in range(op.get("n", 40)):
+                        conn.send(self.dev.wrap(conn, self.dev.state_frame(ftype=acmodel.FT_REPORT), key), lat=1 / 1024)
+                    w.fire("burst_of_unsolicited_reports_while_idle")
+            await asyncio.sleep(op.get("d", 0.2))
         elif kind == "dev_close":
             for conn in w.net.conns:
                 if conn.open and conn.server is self.dev:
